@@ -330,13 +330,16 @@ _paths = []
 class Source:
     """One library of a merge set: how to obtain fresh, independent copies and what it held when made."""
 
-    def __init__(self, spec, fam=None, path=None, kind=None):
+    def __init__(self, spec, fam=None, path=None, kind=None, rereadEvery=1):
         self.spec, self.fam, self.path, self.kind = spec, fam, path, kind
         self.master = None
         self.obs = None
+        self.rereadEvery, self.n = rereadEvery, 0
 
     def fresh(self):
-        if self.path is not None:
+        """A new, independent library: read again from the file (what the reader produces) or a deep copy of such a read."""
+        self.n += 1
+        if self.path is not None and (self.master is None or self.n % self.rereadEvery == 0):
             return READERS[self.kind](self.path)
         return copy.deepcopy(self.master)
 
@@ -1229,8 +1232,8 @@ def judge_macros(rec, rng, lib, suffix, table, witness, hit="macro", haveGamma=F
                     rec.reject("%s refused: a nuclide of the composition has no such data in the library (%s)" % (fn, type(e).__name__))
                 continue
             if not usable:
-                rec.skip("%s returned although a nuclide lacks the data: not judged" % fn)
-                continue
+                # armi treated the nuclide without such data as contributing nothing: then the rest must still be the weighted sum
+                rec.add("%s: nuclide without the data treated as zero contribution" % fn, 1)
             if attr:
                 want, mag = ref_sum(table, dens, attr, mult)
             else:
@@ -1240,8 +1243,11 @@ def judge_macros(rec, rng, lib, suffix, table, witness, hit="macro", haveGamma=F
                     if x is not None:
                         want = x if want is None else want + x
                         mag = m_ if mag is None else mag + m_
+            if want is None:
+                rec.skip("%s: no nuclide of the composition has the data, armi returned a value: not judged" % fn)
+                continue
             rec.hit(hit + ".energy")
-            if want is None or got is None or not close(got, want * factor, mag * factor, 4 * REL):
+            if got is None or not close(got, want * factor, mag * factor, 4 * REL):
                 rec.violation("macro/energy-constants/%s" % fn, "%s for %s differs from the density-weighted sum" % (fn, nm_), dict(w, fn=fn))
     return n1, n2
 
@@ -1314,7 +1320,7 @@ def fixture_sources():
     _io()
     out = []
     for kind, fn in FIXTURES:
-        s = Source({"fixture": fn, "kind": kind}, path=os.path.join(FIXDIR, fn), kind=kind)
+        s = Source({"fixture": fn, "kind": kind}, path=os.path.join(FIXDIR, fn), kind=kind, rereadEvery=5)
         s.master = s.fresh()
         s.obs = obs(s.master)
         out.append(s)
